@@ -575,14 +575,19 @@ impl PlaybackCursor {
                     .map_err(|error| Self::map_replay_error(target, error))?;
                 self.replay_base_validated = true;
             }
+            // Advance a scratch copy and commit it only on success: a verification
+            // failure part-way must not leave a half-advanced state behind the old
+            // `tick` (a later same-tick seek would report it as verified).
+            let mut advanced = self.state.clone();
             advance_replay_state(
                 provenance,
                 self.worldline_id,
-                &mut self.state,
+                &mut advanced,
                 self.tick,
                 target,
             )
             .map_err(|error| Self::map_replay_error(target, error))?;
+            self.state = advanced;
         }
 
         // Update cursor position
